@@ -404,10 +404,18 @@ class Run:
                     elif ent['kind'] in ('sb', 'bf'):
                         effect = self.refused_call_effect(step, ent, post)
                     if effect:
+                        # admitted before the owner finished and refused at
+                        # the end (known finding KF1), or invoked after the
+                        # fence and yet executed (never acceptable)?
+                        late_call = rs is not None and ent['inv_seq'] > rs
                         raise Violation(
-                            ['C17'], 'O-fence', 'refused-after-effect',
+                            ['C17'], 'O-fence',
+                            'late-call-had-effect' if late_call
+                            else 'refused-after-effect',
                             {'straggler': key, 'stmt': ent['j'],
-                             'kind': ent['kind'], 'effect': effect}, i)
+                             'kind': ent['kind'], 'effect': effect,
+                             'invoked_at': ent['inv_seq'],
+                             'owner_returned_at': rs}, i)
             shints[key] = late
         # ---- reference model
         model = self.model_build(step, pre, prev, shints=shints)
